@@ -465,6 +465,15 @@ func (ip *Interp) makeSlice(fr *frame, instr *ssa.MakeSlice) Value {
 		// case split small values; the rest becomes a big slice (if len == cap)
 		if lenT != capT {
 			n := ip.concInt(lenT, "make len")
+			if !capT.IsConst() {
+				// capacity hint only: tracked capacity = length, symbolic capacity kept for cap()
+				s := ip.newSlice(et, n, n)
+				if s.Base == nil {
+					s.Base = []Value{}
+				}
+				s.SymCap = capT
+				return s
+			}
 			c := ip.concInt(capT, "make cap")
 			return ip.newSlice(et, n, c)
 		}
